@@ -128,7 +128,12 @@ def one(job):
                                                 f'the real chain yields {want!r}'))
     except Exception as e:  # noqa
         import traceback
-        bad.append(('harness', f'{type(e).__name__}: {e}\n{traceback.format_exc()[-700:]}'))
+        tb = traceback.format_exc()
+        last = [l for l in tb.splitlines() if l.strip().startswith('File ')][-1]
+        if '/taskchain/' in last:     # the library raised on a legitimate use of the helper: that is a finding
+            bad.append(('helper-raises', f'{label}: {type(e).__name__}: {e}'))
+        else:
+            bad.append(('harness', f'{type(e).__name__}: {e}\n{tb[-700:]}'))
     finally:
         shutil.rmtree(root, ignore_errors=True)
     return idx, bad
